@@ -380,7 +380,8 @@ func (h *Session) Parse(p []byte) (frame Frame, err error) {
 		}
 		// process echo reply to unblock ping if running
 		// ICMP (protocol 1) belongs to IPv4; the 8 byte echo header must lie inside the datagram (TotalLen)
-		if icmpFrame.Type() == ICMP4TypeEchoReply && frame.offsetIP4 != 0 && len(frame.IP4().Payload()) >= 8 {
+		if icmpFrame.Type() == ICMP4TypeEchoReply && frame.offsetIP4 != 0 && len(frame.IP4().Payload()) >= 8 &&
+			frame.IP4().Version() == 4 { // IsValid does not look at the version nibble
 			echo := ICMPEcho(icmpFrame)
 			if err := echo.IsValid(); err != nil {
 				return frame, err
@@ -398,7 +399,8 @@ func (h *Session) Parse(p []byte) (frame Frame, err error) {
 		}
 		// process echo reply to unblock ping if running
 		// ICMPv6 (protocol 58) belongs to IPv6; the 8 byte echo header must lie inside the packet (PayloadLen)
-		if icmpFrame.Type() == ICMP6TypeEchoReply && frame.offsetIP6 != 0 && len(frame.IP6().Payload()) >= 8 {
+		if icmpFrame.Type() == ICMP6TypeEchoReply && frame.offsetIP6 != 0 && len(frame.IP6().Payload()) >= 8 &&
+			frame.IP6().Version() == 6 { // IsValid does not look at the version nibble
 			echo := ICMPEcho(icmpFrame)
 			if err := echo.IsValid(); err != nil {
 				return frame, err
